@@ -16,6 +16,7 @@ import concurrent.futures as cf
 import itertools
 import os
 import re
+import time
 
 import common
 from common import Check, run_impl, standard_proof_step, TRUSTED_COMMON
@@ -156,7 +157,7 @@ def c_events(evs):
         if e[0] == "ns":
             out.append(f"(PNs {ostr(e[1])} {cstr(e[2])})")
         elif e[0] == "start":
-            attrs = clist([f"({cstr(k)}, {cstr(v)})" for k, v in e[2]], str, "str * str")
+            attrs = clist([f"({cstr(k)}, {cstr(v)})" for k, v in e[2]], str, "(str * str)")
             out.append(f"(PStart {cstr(e[1])} {attrs} {ostr(e[3])})")
         elif e[0] == "end":
             out.append(f"(PEnd {cstr(e[1])} {ostr(e[2])})")
@@ -403,19 +404,19 @@ def build_ops(ck, fresh_ser, fresh_enc):
         text, ev = render_doc(d)
         add(f"parse:{n}", NEEDS.get(n, ()), kind="parse", doc=text, events=ev, clazz=root_class[n])
         if n in ("PA", "Own", "Late", "Holder", "Leaf", "Tgt", "Leaf2", "Wild"):
-            add(f"parse-auto:{n}", (), kind="parse", doc=text, events=ev, clazz=None)
+            add(f"parse-auto:{n}", (), kind="parse", handler="native", doc=text, events=ev, clazz=None)
     # failing documents
     text, ev = render_doc(docs["PA"])
     add("parse:PA-as-PB", (), kind="parse", doc=text, events=ev, clazz=3)
     for cut in (0, 2, 5):
         text, ev = render_doc(docs["PA"], cut=cut)
-        add(f"parse:PA-cut{cut}", (), kind="parse", doc=text, events=ev, clazz=2)
+        add(f"parse:PA-cut{cut}", (), kind="parse", handler="native", doc=text, events=ev, clazz=2)
     text, ev = render_doc(docs["Holder"], cut=3)
-    add("parse:Holder-cut3", (), kind="parse", doc=text, events=ev, clazz=9)
+    add("parse:Holder-cut3", (), kind="parse", handler="native", doc=text, events=ev, clazz=9)
     bad = doc_of_tree(fresh_ser["PB"]["ok"])
     bad["kids"].append({"q": "{urn:b}nosuch", "attrs": [], "xsi": None, "text": "u", "kids": []})
     text, ev = render_doc(bad)
-    add("parse:PB-unknown", (), kind="parse", doc=text, events=ev, clazz=3)
+    add("parse:PB-unknown", (), kind="parse", handler="native", doc=text, events=ev, clazz=3)
     bad = doc_of_tree(fresh_ser["PB"]["ok"])
     bad["kids"][0]["kids"][0]["q"] = "{urn:a}x"        # the document a poisoned context writes
     text, ev = render_doc(bad)
@@ -430,6 +431,15 @@ def build_ops(ck, fresh_ser, fresh_enc):
             {"q": "{urn:h}b", "attrs": [], "xsi": None, "text": "xb", "kids": []}]}]}
     text, ev = render_doc(hl)
     add("parse:Holder-xsi-LateDer", (), kind="parse", doc=text, events=ev, clazz=9)
+    # wildcard namespace matching: same local name in different namespaces against one var
+    def wdoc(root, child):
+        return {"q": root, "attrs": [], "xsi": None, "text": None,
+                "kids": [{"q": child, "attrs": [], "xsi": None, "text": "g", "kids": []}]}
+    for tag, root, child, cz in (("WildO-other", "{urn:a}WildO", "{urn:z}g", 11), ("WildO-same", "{urn:a}WildO", "{urn:a}g", 11),
+                                 ("WildO-local", "{urn:a}WildO", "g", 11),
+                                 ("WildT-a", "{urn:a}WildT", "{urn:a}g", 17), ("WildT-z", "{urn:a}WildT", "{urn:z}g", 17)):
+        text, ev = render_doc(wdoc(root, child))
+        add(f"parse:{tag}", (), kind="parse", doc=text, events=ev, clazz=cz)
     # dictionaries
     for n, r in fresh_enc.items():
         if "ok" not in r:
@@ -468,6 +478,11 @@ def build_ops(ck, fresh_ser, fresh_enc):
 REDUCED = ["ser:PA", "ser:PB", "parse:PB", "jser:Leaf", "dec-auto:x", "parse-auto:Late", "parse:Holder",
            "find_type:Leaf", "find_type:{urn:k}Broken", "build_recursive:Dep", "parse:PA-cut5", "ser:Broken",
            "ser:Own"]
+MEDIUM = REDUCED + ["parse:PA-as-PB", "reset", "parse:WildO-other", "parse:WildO-same", "parse:WildO-local", "parse:WildT-a",
+                    "parse:WildT-z", "parse:Holder-xsi-LateDer", "find_subclass:Der,LateDer", "dec:Holder-der", "jparse:PA",
+                    "ser:PC", "parse:PC", "ser:Wild", "parse:Wild", "ser:Holder", "find_types:Leaf", "names_match:Broken",
+                    "build_xsi_cache", "by_fields:x", "fetch:Base,xsi=Der2", "build:Leaf,urn:q", "ser:Leaf", "parse:Leaf",
+                    "parse-auto:Leaf", "ser:WildO", "ser:WildT", "parse:WildT", "ser:Mid", "jser:PA", "jparse-auto:PA"]
 ENVS = [{"env": "define", "cid": 20, "bump": False}, {"env": "define", "cid": 22, "bump": False},
         {"env": "define", "cid": 21, "bump": True}]
 CLOSED = ["ser:Own", "parse:Own", "parse-auto:Own", "jser:Own", "dec:Own", "ser:Broken", "build:Broken",
@@ -494,13 +509,13 @@ def gen_sequences(ck, ops):
     seqs = []
     kinds = {"exhaustive": 0, "witness": 0, "closed": 0, "random": 0}
     maxlen = ck.n(3, 4)
-    if not ck.quick:
-        alpha_x = alpha
-    else:
-        alpha_x = alpha
+    medium = [{"op": by_tag[t]} for t in MEDIUM] + ENVS
+    everything = [{"op": i} for i in range(len(ops))] + ENVS
     for n in range(1, maxlen + 1):
-        if n == 4:
-            alpha_x = alpha[:8] + ENVS[:2]     # thorough: length 4 over a smaller alphabet
+        # length 1: every operation; length 2: all ordered pairs over a medium alphabet (thorough: over
+        # everything); length 3: a reduced alphabet; length 4 (thorough): a smaller one still
+        alpha_x = {1: everything, 2: medium if ck.quick else everything, 3: alpha if ck.quick else medium,
+                   4: alpha}[n]
         for tup in itertools.product(alpha_x, repeat=n):
             if "env" in tup[-1]:
                 continue        # a trailing environment change has nothing to compare
@@ -568,7 +583,7 @@ def gen_sequences(ck, ops):
 _NATLIST = re.compile(r"=\s*(\[[^\]]*\])\s*:\s*list nat", re.S)
 
 
-def coq_summaries(tag, defs, cases, shard=150, timeout=1500):
+def coq_summaries(tag, defs, cases, shard=150, timeout=1500, fn="case_summary"):
     """case_summary of every case (Model/ContextCorr.v), sharded, in parallel."""
     os.makedirs(common.CORR, exist_ok=True)
     shards = [cases[i:i + shard] for i in range(0, len(cases), shard)] or [[]]
@@ -579,7 +594,7 @@ def coq_summaries(tag, defs, cases, shard=150, timeout=1500):
             f.write("\n".join([IMPORTS, "From Coq Require Import NArith List Bool.", "Import ListNotations.",
                                "Open Scope N_scope.", defs,
                                "Definition the_cases : list case := [", ";\n".join(sh), "].",
-                               "Eval vm_compute in (map case_summary the_cases)."]) + "\n")
+                               f"Eval vm_compute in ({'flat_map' if fn == 'case_diag' else 'map'} {fn} the_cases)."]) + "\n")
         paths.append(path)
     with cf.ThreadPoolExecutor(max_workers=16) as ex:
         results = list(ex.map(lambda p: common._coqc(p, timeout), paths))
@@ -591,7 +606,7 @@ def coq_summaries(tag, defs, cases, shard=150, timeout=1500):
         if not m:
             raise common.BuildError(os.path.relpath(paths[k], common.COQ), "unparsable output: " + so[-500:])
         vals = [int(x) for x in re.findall(r"\d+", m.group(1))]
-        if len(vals) != len(shards[k]):
+        if fn == "case_summary" and len(vals) != len(shards[k]):
             raise common.BuildError(os.path.relpath(paths[k], common.COQ), "wrong number of summaries")
         out += vals
     for p in paths:
@@ -627,6 +642,24 @@ def impl_payload(ops, seqs):
     return {"static": STATIC, "dynamic": dyn, "ops": strip, "seqs": seqs}
 
 
+def run_impl_parallel(ops, seqs, workers=8):
+    """The sequences are independent of each other: run them in several
+    implementation processes.  Every process reports the same world."""
+    n = max(1, min(workers, len(seqs) // 50 or 1))
+    chunks = [seqs[i::n] for i in range(n)]
+    with cf.ThreadPoolExecutor(max_workers=n) as ex:
+        outs = list(ex.map(lambda ch: run_impl("impl_c14.py", impl_payload(ops, ch), timeout=2400), chunks))
+    first = outs[0]
+    for o in outs[1:]:
+        if o["order"] != first["order"] or o["ambient"] != first["ambient"] or o["modules0"] != first["modules0"]:
+            raise RuntimeError("implementation processes disagree about the world")
+    runs = [None] * len(seqs)
+    for k, o in enumerate(outs):
+        for j, r in enumerate(o["runs"]):
+            runs[k + j * n] = r
+    return {"order": first["order"], "ambient": first["ambient"], "modules0": first["modules0"], "runs": runs}
+
+
 CLASSES = {32: "ns-cache-key", 64: "stale-subclass-index", 128: "pruned-index", 256: "build-recursive-skips-cached"}
 
 
@@ -645,12 +678,14 @@ def run(ck: Check):
     p1 = run_impl("impl_c14.py", {"static": STATIC, "dynamic": DYNAMIC, "ops": p1_ops, "seqs": p1_seqs})
     fresh_ser = {n: p1["runs"][i][-1]["fresh"] for i, n in enumerate(names)}
     fresh_enc = {n: p1["runs"][len(names) + i][-1]["fresh"] for i, n in enumerate(names)
-                 if n in ("PA", "Leaf", "Own", "Holder", "Mid", "Tgt", "Late", "PB")}
+                 if n in ("PA", "Leaf", "Own", "Mid", "Tgt", "Late", "PB")}
+    t_p1 = time.time()
     ops = build_ops(ck, fresh_ser, fresh_enc)
     seqs, kinds = gen_sequences(ck, ops)
 
     # ---- pass 2: the sequences on the real instances
-    res = run_impl("impl_c14.py", impl_payload(ops, seqs), timeout=2400)
+    res = run_impl_parallel(ops, seqs)
+    t_p2 = time.time()
     order, ambient = res["order"], {a["cid"]: a for a in res["ambient"]}
 
     # ---- the world and the cases as Gallina terms
@@ -674,7 +709,8 @@ def run(ck: Check):
                     steps.append("StEnv EImport")
                 continue
             calls += 1
-            steps.append(f"StOp op_{st['op']} {rint(c_res(out['shared']))} {rint(c_res(out['fresh']))} "
+            ordered = ops[st["op"]]["kind"] not in ("dec", "jparse")
+            steps.append(f"StOp op_{st['op']} {cbool(ordered)} {rint(c_res(out['shared']))} {rint(c_res(out['fresh']))} "
                          f"{tint(c_otrace(out['ts']))} {tint(c_otrace(out['tf']))}")
             delta = out["mod"][1] - out["mod"][0]
             if delta:
@@ -683,7 +719,10 @@ def run(ck: Check):
                 steps += ["StEnv EImport"] * max(delta, 0)
         cases.append(f"(W0, {clist(steps, str, 'step')})")
     alldefs = "\n".join(defs + rint.defs + tint.defs)
+    t_terms = time.time()
     summ = coq_summaries("c14", alldefs, cases)
+    ck.notes.append(f"timing: pass1 done at {t_p1 - ck.t0:.0f}s, pass2 at {t_p2 - ck.t0:.0f}s, terms at {t_terms - ck.t0:.0f}s, "
+                    f"coq at {time.time() - ck.t0:.0f}s; {len(rint.ids)} distinct results, {len(tint.ids)} distinct access logs")
 
     # ---- verdicts
     ck.cov["evaluations"] = calls
@@ -708,8 +747,10 @@ def run(ck: Check):
         distinct.add(tuple(st.get("op", -1 - st.get("cid", 0)) for st in seqs[i]))
         tags = " ; ".join(ops[st["op"]]["tag"] if "op" in st else f"<{st['env']} {st.get('cid', '')}>" for st in seqs[i])
         if not s & 1:
-            ck.failure("corr-context", f"model and implementation disagree (result or logged context access) on: {tags}",
-                       replay(i))
+            rp = replay(i)
+            if not any(v[0] == "corr-context" for v in ck.violations):
+                rp["per_call"] = coq_summaries("c14d", alldefs, [cases[i]], fn="case_diag")   # 0 ok, 1 result, 2 access log
+            ck.failure("corr-context", f"model and implementation disagree (result or logged context access) on: {tags}", rp)
             continue
         if s & 16:
             stats["guarded_sequences"] += 1
@@ -737,8 +778,9 @@ def run(ck: Check):
     ck.cov["distinct_nontrivial"] = len(distinct)
     ck.cov["rule"] = ("operation sequences on shared XmlContext/XmlParser/XmlSerializer/JsonParser/JsonSerializer/"
                       "DictDecoder/DictEncoder instances vs fresh instances, call by call: bounded-exhaustive for "
-                      f"length <= {ck.n(3, 4)} over a reduced alphabet of {len(REDUCED)} operations + {len(ENVS)} class "
-                      "definitions at run time, the witnesses of the refutation lemmas, random histories inside the "
+                      f"length <= {ck.n(3, 4)} (length 1: all {len(ops)} operations; length 2: all ordered pairs over {len(MEDIUM)} "
+                      f"operations; length 3: over {len(REDUCED)} operations; each alphabet + {len(ENVS)} class "
+                      "definitions at run time), the witnesses of the refutation lemmas, random histories inside the "
                       "static guard, random histories up to length 40 over the whole pool; distinct = distinct "
                       "sequences; every one reaches the modelled context methods")
     ck.cov["input_distribution"] = dict(kinds, pool_classes=len(STATIC), runtime_classes=len(DYNAMIC),
